@@ -1655,11 +1655,11 @@ Definition ex_specl : list screen_spec :=
   [ {| sc_setup := []; sc_refresh := [SIfCount 1 [SPushModal 1 0] []]; sc_show := []; sc_closed := [];
        sc_input := [([49%N], ([SPush 1 0], RProcessed)); ([51%N], ([], RClose))]; sc_input_default := ([], None);
        sc_prompt_none := false; sc_input_required := true; sc_no_separator := false; sc_skip_check := false;
-       sc_pages := 0; sc_answer0 := AnsNoAttr; sc_custom := [] |};
+       sc_pages := 0; sc_answer0 := AnsNoAttr; sc_custom := []; sc_setup_cmds := [] |};
     {| sc_setup := []; sc_refresh := []; sc_show := []; sc_closed := [];
        sc_input := [([50%N], ([], RProcessed))]; sc_input_default := ([], Some RClose);
        sc_prompt_none := false; sc_input_required := true; sc_no_separator := false; sc_skip_check := false;
-       sc_pages := 0; sc_answer0 := AnsNoAttr; sc_custom := [] |} ].
+       sc_pages := 0; sc_answer0 := AnsNoAttr; sc_custom := []; sc_setup_cmds := [] |} ].
 Definition ex_specs (n : nat) : screen_spec := nth n ex_specl default_spec.
 Definition ex_typed : list (option str) := [Some [49%N]; Some [51%N]].
 Definition ex_acts : list saction := [SACmds [SSchedule 0 0]; SARun].
